@@ -176,7 +176,7 @@ static void check_positions(const GCfg &cfg, Result &R, Stats &st, bool verbose)
             range_ok = false;
             const bool upper = kinds[d] == 3 && ecell[d] == cfg.n[d] - 1;
             ++st.out_of_range;
-            R.violation(std::string("C16:cartesian:index-out-of-range") + (upper ? ":one-ulp-below-upper-box-face" : ":interior"),
+            R.violation(std::string("C16:cartesian:index-out-of-range") + (upper ? ":within-roundoff-below-upper-box-face" : ":interior"),
                         fmt("cfg %s (anchor %g side %g, %d cells in dim %d): get_cell_indices(%a,%a,%a)[%d] = %d, valid range 0..%d; the "
                             "position is inside the half-open box (%a < top %a); get_cell_index = %zu of %zu cells",
                             cfg.name.c_str(), cfg.A[d], cfg.S[d], cfg.n[d], d, cx.x, cy.x, cz.x, d, (int)I3[d], cfg.n[d] - 1, p[d],
